@@ -113,6 +113,17 @@ def replay_density(data):
                 want3 = a.rho(pts) / (a.rho(pts) + b.rho(pts))
                 if not np.allclose(w3, want3, rtol=1e-4, atol=1e-6):
                     bad.append("StockholderWeight.from_xyz_files(f1, f2) is not rho(f1)/(rho(f1)+rho(f2)) (max deviation %.3g)" % np.abs(w3 - want3).max())
+                # the two files swap their contents; loading the same paths again describes the new contents
+                ta, tb = open(names[0]).read(), open(names[1]).read()
+                open(names[0], "w").write(tb)
+                open(names[1], "w").write(ta)
+                w4 = StockholderWeight.from_xyz_files(names[0], names[1]).weights(pts)
+                want4 = b.rho(pts) / (a.rho(pts) + b.rho(pts))
+                if not np.allclose(w4, want4, rtol=1e-4, atol=1e-6):
+                    bad.append("StockholderWeight.from_xyz_files on rewritten files does not describe their new contents (max deviation %.3g)" % np.abs(w4 - want4).max())
+                r5 = PromoleculeDensity.from_xyz_file(names[0]).rho(pts)
+                if not np.allclose(r5, b.rho(pts), rtol=1e-4, atol=1e-12):
+                    bad.append("PromoleculeDensity.from_xyz_file on a rewritten file does not describe its new contents")
             finally:
                 for fn in os.listdir(tmpd):
                     os.remove(os.path.join(tmpd, fn))
@@ -476,6 +487,13 @@ def part_wrappers(ctx):
         swx = md.StockholderWeight.from_xyz_files(fa, fb)
         a, b, args, kw = log[0]
         okx = len(log) == 1 and same(a.positions, PA) and same(b.positions, PB)
+        # the same two paths with other contents (a user regenerating the files): the densities follow the files
+        open(fa, "w").write("2\nB\nH 1.5 0.75 -0.25\nH 2.0 -1.25 0.5\n")
+        open(fb, "w").write("1\nA\nO 0.25 -0.5 1.0\n")
+        del log[:]
+        swx = md.StockholderWeight.from_xyz_files(fa, fb)
+        a, b, args, kw = log[0]
+        okx = okx and len(log) == 1 and same(a.positions, PB) and same(b.positions, PA)
     except Exception as e:
         okx = False
     finally:
@@ -484,7 +502,7 @@ def part_wrappers(ctx):
         os.rmdir(tmpd)
     ctx.record("wrappers (from_xyz_files): interior density from the first file, exterior from the second", "holds" if okx else "counterexample", nontrivial=True)
     if not okx:
-        bad = "StockholderWeight.from_xyz_files does not build the interior density from the first file and the exterior from the second"
+        bad = "StockholderWeight.from_xyz_files does not build the interior density from the first file and the exterior from the second (files read, rewritten with other contents and read again)"
     for p in paths:
         if p.exc is not None:
             bad = "wrapper raises %s: %s" % (type(p.exc).__name__, p.exc)
